@@ -63,15 +63,16 @@ func hashHeader(hd http.Header) uint64 {
 const c13ReadMax = 2 << 20
 
 type c13State struct {
-	dumped   int32
-	run      *ev.Run
-	srv      *svc.Server
-	clients  []*c13Client
-	done     int64
-	inflight int64
-	maxIn    int64
-	mu       sync.Mutex
-	kept     []*retained
+	holdClients []*c13Client
+	dumped      int32
+	run         *ev.Run
+	srv         *svc.Server
+	clients     []*c13Client
+	done        int64
+	inflight    int64
+	maxIn       int64
+	mu          sync.Mutex
+	kept        []*retained
 }
 
 type c13Client struct {
@@ -197,6 +198,13 @@ func c13(run *ev.Run) int {
 			}
 		}
 	}
+	// clients whose HTTP client holds every response back for a moment
+	for _, p := range svc.Protocols {
+		hc, base := st.srv.RawHTTPClient(true)
+		jt := jitterTransport{next: hc.Transport, holdResp: 40 * time.Millisecond}
+		st.holdClients = append(st.holdClients, &c13Client{name: p + "/proto/h2=true/held-response", proto: p, http2: true,
+			cs: svc.NewClientSet(&http.Client{Transport: jt}, base, svc.ProtoOpts(p, "proto")...)})
+	}
 	G, K := run.Pick(24, 48), run.Pick(30, 60)
 	reps := run.Pick(1, 2)
 	var nextID uint64
@@ -236,6 +244,14 @@ func c13(run *ev.Run) int {
 			// heavy mixed load above the cancel usually lands before the response
 			// has started, which exercises nothing.
 			for round := 0; round < run.Pick(12, 40); round++ {
+				for x := 0; x < 3; x++ {
+					wg.Add(1)
+					go func(x int) {
+						defer wg.Done()
+						id := atomic.AddUint64(&nextID, 1) + 1<<43
+						st.heldResponseCancel(id, procs, x)
+					}(x)
+				}
 				for x := 0; x < 12; x++ {
 					wg.Add(1)
 					go func(b int) {
@@ -592,13 +608,24 @@ func (s *c13State) duplexStream(id uint64, procs, b int) {
 	call := s.srv.Reg.New("c13d", prog)
 	defer s.srv.Reg.Drop(call)
 	st := c.cs.C[svc.Bidi].CallBidiStream(context.Background())
-	st.RequestHeader().Set(wire.CallHeader, call.ID)
+	// Every other stream: the sender goroutine sets the request headers itself,
+	// a moment after the receiver goroutine has entered Receive (headers are sent
+	// with the first Send; a Receive that is already waiting must not send the
+	// request on its own, without them).
+	lateHeaders := id%2 == 0
+	if !lateHeaders {
+		st.RequestHeader().Set(wire.CallHeader, call.ID)
+	}
 	key := fmt.Sprintf("c13/duplex/%s", c.name)
 	var sendErr error
 	var steps int64 // messages sent + received so far (progress, for the watchdog only)
 	sent := make(chan struct{})
 	go func() {
 		defer close(sent)
+		if lateHeaders {
+			time.Sleep(30 * time.Millisecond)
+			st.RequestHeader().Set(wire.CallHeader, call.ID)
+		}
 		for i := 0; i < n; i++ {
 			if err := st.Send(gen.New(id*1024+uint64(i), 100+i%5*400, false)); err != nil {
 				sendErr = err
@@ -884,5 +911,55 @@ func (s *c13State) panicCall(r *rand.Rand, c *c13Client, id uint64, procs int) {
 	want := "data_loss: recovered p-" + idStr
 	if got := errStr(cl.err); got != want {
 		run.Violation(key+"/recovered-error", fmt.Sprintf("handler of call %s panicked under a recovery function: the client received %q, want %q", idStr, got, want), nil)
+	}
+}
+
+// heldResponseCancel: the context ends while the HTTP client is still holding
+// the response; the response is handed over afterwards all the same. The receive
+// side of the call (which the cancellation wakes up) and the goroutine that
+// takes delivery of the response must not touch the same state unsynchronised.
+// Only termination and coded errors are judged; the race detector watches.
+func (s *c13State) heldResponseCancel(id uint64, procs, x int) {
+	run := s.run
+	c := s.holdClients[x%len(s.holdClients)]
+	prog := &svc.Program{Header: http.Header{"X-Echo-Id": {strconv.FormatUint(id, 10)}}, Steps: []svc.Step{{Op: "send", Msg: &gen.Msg{Id: id}}, {Op: "recvall"}}}
+	call := s.srv.Reg.New("c13h", prog)
+	defer s.srv.Reg.Drop(call)
+	ctx, cancel := context.WithCancel(context.Background())
+	defer cancel()
+	st := c.cs.C[svc.Bidi].CallBidiStream(ctx)
+	st.RequestHeader().Set(wire.CallHeader, call.ID)
+	small := &gen.Msg{Id: id}
+	var errs []error
+	ok, dump := watchdog(120*time.Second, func() {
+		errs = append(errs, st.Send(small)) // issues the request
+		go func() {
+			time.Sleep(time.Duration(2000+(id*7919)%36000) * time.Microsecond) // somewhere inside the hold
+			cancel()
+		}()
+		_, err := st.Receive()
+		errs = append(errs, err)
+		_, err = st.Receive()
+		errs = append(errs, err)
+		_ = st.ResponseHeader().Get("X-Echo-Id")
+		errs = append(errs, st.CloseRequest(), st.CloseResponse())
+	})
+	run.Count("calls", 1)
+	run.Count("held_response.cancelled_calls", 1)
+	run.Eval(fmt.Sprintf("held-response-cancel|%s|procs=%d", c.name, procs))
+	key := "c13/held-response-cancel/" + c.name
+	if !ok {
+		run.Violation(key+"/hang", "call cancelled while the HTTP client was holding its response hung", trunc(dump, 30000))
+		return
+	}
+	for _, e := range errs {
+		if e == nil || errors.Is(e, io.EOF) {
+			continue
+		}
+		var ce *connect.Error
+		if !errors.As(e, &ce) || ce.Code() == 0 {
+			run.Violation(key+"/uncoded", "operation on a call cancelled during a held response returned an uncoded error: "+e.Error(), nil)
+			return
+		}
 	}
 }
